@@ -414,7 +414,9 @@ def run(model, col, tier):
              and any(isinstance(r_, ast.Return) and "{}:{}-{}" in unparse(r_) and "{}:{}-{}:{}" not in unparse(r_) for s_ in n.body for r_ in ast.walk(s_))]
     col.check(bool(sl_if), "R20.5", f"{ASTF}::Location.__str__ single/multi-line split", "the short form is used exactly when begin and end are on one line", "the single-line form is not selected by startLine == endLine", ASTF, sf)
     li = loc.own_method("__init__")
-    col.check("span[1] >= span[0]" in unparse(li), "R20.5", f"{ASTF}::Location.__init__ span order", "a span's end is not before its begin", None, ASTF, li)
+    sp20 = li.args.args[1].arg
+    # (canonical form of order comparisons: `a >= b` is presented as `b <= a`)
+    col.check(any(isinstance(a_, ast.Assert) and " ".join(unparse(a_.test).split()) == f"{sp20}[0] <= {sp20}[1]" for a_ in ast.walk(li)), "R20.5", f"{ASTF}::Location.__init__ span order", "a span's end is not before its begin", None, ASTF, li)
     for m, i in (("GetBegin", 0), ("GetEnd", 1)):
         mm = loc.own_method(m)
         r = [unparse(x.value) for x in ast.walk(mm) if isinstance(x, ast.Return)]
